@@ -18,7 +18,9 @@ THEOREMS = ['C19_rename_outcome', 'C19_rename_ok_iff', 'C19_rename_references', 
             'C19_remove_gate_outcome', 'C19_no_users_iff', 'C19_remove_gate_state', 'C19_remove_gate_well_formed',
             'C19_remove_gate_semantics',
             'C19_replace_subcircuit_renaming', 'C19_replace_subcircuit_well_formed', 'C19_replace_subcircuit_semantics',
-            'C19_replace_subcircuit_truth_table', 'C19_replace_subcircuit_errors',
+            'C19_replace_subcircuit_truth_table', 'C19_replace_subcircuit_arities_accepted',
+            'C19_replace_subcircuit_outputs', 'C19_replace_subcircuit_evaluate', 'C19_replace_subcircuit_entry_example',
+            'C19_replace_subcircuit_errors',
             'C19_replace_subcircuit_arity_needed', 'C19_replace_subcircuit_example',
             'C19_example']
 PARTIAL = {}
@@ -35,7 +37,9 @@ LEVEL_TEXT = ('proved over the relational semantics Eval, for all well-formed ci
               'GateHasUsersError), it disappears from gate map, inputs and outputs, blocks mentioning it are dropped, every '
               'other gate keeps its value; replace_subcircuit - on Ok the state is well formed (C02) and, if the replacement '
               'reproduces at the mapped outputs the host values from the host values of the mapped inputs, every surviving '
-              'gate and the whole output vector keep their values modulo the renaming of the mapped gates; on failure the '
+              'gate and the whole output vector keep their values modulo the renaming of the mapped gates, the result has '
+              'accepted arities when host and replacement have, and evaluate / get_truth_table return equal results when no '
+              'primary input is removed; on failure the '
               'error is one of the seven documented kinds (never OutOfFuel: fuel adequacy of the slice loop and of the cycle '
               'check proved); code tie by exact correspondence of the full state after every call of generated histories '
               'and by the truth-table oracle on the implementation')
@@ -50,7 +54,9 @@ LEVEL_NOTE = ('Coq kernel + vm_compute; hand-written model (Model/Circuit.v rena
               'assignments. Statements are about Eval and, for rename_gate and replace_inputs, also about the entry points '
               'evaluate / get_truth_table: rename_gate by a lock-step simulation of the stack evaluator (no arity hypothesis, '
               'errors included), replace_inputs through soundness and completeness of the evaluators (C01; hypotheses Inv c, '
-              'arity_ok c). replace_subcircuit is stated over Eval only (tied to the evaluators by C01)')
+              'arity_ok c). replace_subcircuit at the entry points (C19_replace_subcircuit_evaluate) needs in addition arity_ok sub and '
+              'inputs c\' = the renamed inputs of c (an input that is itself a replaced output is removed from the input '
+              'list, so the positional vectors would have different lengths)')
 TECHNIQUE = ('Coq proof: generic simulation lemmas for Eval (Proofs/SemExt.v: simulation along a renaming restricted to an '
              'operand-closed set, agreement, extension, restriction, congruence, existence from WF + arity); rename: equational '
              'normal form of rename_gate + loop lemmas for success, structural image, two simulations, lock-step simulation '
